@@ -45,6 +45,12 @@ def gen_cases(rng, tier):
                "n_workers": rng.randint(1, 5), "max_events": rng.choice([60, 120]) if tier == "quick" else rng.choice([120, 300]),
                "style": "distinct", "p_fail": rng.choice([0.05, 0.1]) if name == "dehb" else rng.choice([0, 0.03]), "max_t": rng.choice([1, 2, 3]) if name.startswith("fifo-") else rng.choice([9, 27]),
                "extra": {"brackets": 1 if name == "hb-pasha" else (None if name in ("dehb", "sync-hb") else rng.choice([1, 2, 3]))},
+               "perturb_seed": rng.randrange(10 ** 6), "np_seed": rng.random() < 0.3}
+    # PASHA estimates a noise level from all results it has seen: longer runs with many rank changes
+    for i in range(6 if tier == "quick" else 40):
+        yield {"kind": "inproc", "name": "hb-pasha", "sched_seed": rng.randrange(10 ** 6), "seed": rng.randrange(10 ** 9),
+               "cs_kind": rng.choice(["mixed", "cont"]), "n_workers": rng.randint(2, 5), "max_events": 160, "style": "general",
+               "p_fail": 0, "max_t": 27, "extra": {"brackets": 1, "reduction_factor": rng.choice([2, 3])},
                "perturb_seed": rng.randrange(10 ** 6)}
     # twins created from the very same argument objects (here: the list of allowed configurations): neither may change
     # what the other one sees
@@ -113,14 +119,33 @@ def run_impl(spec):
             rc0 = [dict(c_) for c_ in rc]  # (the independent instance gets a list of its own)
             spec = dict(spec, extra=dict(spec["extra"], restrict=rc))  # ONE list object for the two twins
         with contextlib.redirect_stdout(io.StringIO()):
+            if spec.get("np_seed"):
+                # the seed is an integer of numpy (for seed in np.arange(n), a seed read from an array): the same experiment
+                spec = dict(spec, sched_seed=np.int64(spec["sched_seed"]))
             a = g.drive(g.make_scheduler(name, "min", spec["sched_seed"], spec["cs_kind"], spec["max_t"], spec["extra"]), spec)
             # twin under ambient perturbation, interleaved with an independent instance of the same class
             prng = random.Random(spec["perturb_seed"])
             # the independent instance: same class, other seed; for grid search also other domains under the same names
-            other = g.make_scheduler(name, "min", spec["sched_seed"] + 1,
-                                     "finite2" if (name == "fifo-grid" and spec["cs_kind"] == "finite") else spec["cs_kind"], spec["max_t"],
-                                     dict(spec["extra"], restrict=rc0) if rc0 is not None else spec["extra"])
-            ospec = dict(spec, seed=spec["seed"] + 7, max_events=6)
+            # ... and of another shape where the class has one: other number of brackets / reduction factor / max_t
+            oextra = dict(spec["extra"], restrict=rc0) if rc0 is not None else dict(spec["extra"])
+            if isinstance(oextra.get("brackets"), int) and name != "hb-pasha":
+                oextra["brackets"] = oextra["brackets"] % 3 + 1
+            oextra["reduction_factor"] = 2 if oextra.get("reduction_factor", 3) == 3 else 3
+            omax_t = 27 if spec["max_t"] == 9 else (9 if spec["max_t"] == 27 else spec["max_t"])
+            try:
+                other = g.make_scheduler(name, "min", spec["sched_seed"] + 1,
+                                         "finite2" if (name == "fifo-grid" and spec["cs_kind"] == "finite") else spec["cs_kind"], omax_t, oextra)
+            except Exception:  # noqa (a shape the class rejects)
+                other = g.make_scheduler(name, "min", spec["sched_seed"] + 1, spec["cs_kind"], spec["max_t"],
+                                         dict(spec["extra"], restrict=rc0) if rc0 is not None else spec["extra"])
+                omax_t = spec["max_t"]
+            ospec = dict(spec, seed=spec["seed"] + 7, max_events=6, max_t=omax_t)
+            # a whole independent experiment of the other instance runs between the two twins (and goes on, interleaved,
+            # while the second twin runs): state shared between objects of a class shows as a divergence of the twins
+            try:
+                g.drive(other, dict(ospec, max_events=min(60, spec["max_events"])))
+            except Exception:  # noqa
+                pass
             try:
                 b_s = g.make_scheduler(name, "min", spec["sched_seed"], spec["cs_kind"], spec["max_t"], spec["extra"])
             except Exception as e:  # noqa: the first instance was created from the same arguments without complaint
@@ -129,6 +154,14 @@ def run_impl(spec):
                             "what": f"{name}: a second scheduler created with the same arguments raised {type(e).__name__}: {e}",
                             "detail": None})
             state = {"n": 0}
+            # a third instance, of yet another shape, is created now but used for the first time while the second twin runs
+            lextra = dict(oextra)
+            if isinstance(lextra.get("brackets"), int) and name != "hb-pasha":
+                lextra["brackets"] = lextra["brackets"] % 3 + 1
+            try:
+                late = g.make_scheduler(name, "min", spec["sched_seed"] + 2, spec["cs_kind"], spec["max_t"], lextra)
+            except Exception:  # noqa
+                late = None
 
             def between():
                 k = prng.randrange(2 ** 31)
@@ -137,6 +170,11 @@ def run_impl(spec):
                 random.seed(k)
                 random.random()
                 state["n"] += 1
+                if late is not None and state["n"] in (5, 40):
+                    try:
+                        g.drive(late, dict(spec, seed=spec["seed"] + 11 + state["n"], max_events=12))
+                    except Exception:  # noqa
+                        pass
                 if state["n"] % 17 == 3:
                     try:
                         g.drive(other, dict(ospec, seed=ospec["seed"] + state["n"]))
